@@ -287,6 +287,76 @@ func hasEmptyPiece(v reflect.Value, depth int) bool {
 	return false
 }
 
+// emptyPieceAt: the member of the argument on the way to the place that differs (where is the path
+// valgen.Equal reports, ".P3.Value[1]: ...") holds an empty piece. An empty piece elsewhere in the call
+// explains nothing about this member.
+func emptyPieceAt(a reflect.Value, where string) bool {
+	path, _, _ := strings.Cut(where, ":")
+	path = strings.TrimPrefix(strings.TrimSpace(path), ".")
+	name, _, _ := strings.Cut(path, ".")
+	name, _, _ = strings.Cut(name, "[")
+	for a.IsValid() && (a.Kind() == reflect.Pointer || a.Kind() == reflect.Interface) && !a.IsNil() {
+		a = a.Elem()
+	}
+	if name == "" || !a.IsValid() || a.Kind() != reflect.Struct {
+		return hasEmptyPiece(a, 0)
+	}
+	f := a.FieldByName(name)
+	if !f.IsValid() {
+		return hasEmptyPiece(a, 0)
+	}
+	return hasEmptyPiece(f, 0)
+}
+
+// emptyPieceNamed: the errors of a call that was not delivered name the parameter / member that could
+// not be decoded or encoded; that one must hold an empty piece. Errors that name nothing are
+// attributed to the empty piece the call is known to contain.
+func emptyPieceNamed(args []reflect.Value, errs string) bool {
+	var names []string
+	for _, m := range paramNameRe.FindAllStringSubmatch(errs, -1) {
+		names = append(names, alnumLower(m[1]))
+	}
+	if len(names) == 0 {
+		return true
+	}
+	found := false
+	var walk func(v reflect.Value, depth int) bool
+	walk = func(v reflect.Value, depth int) bool {
+		for v.IsValid() && (v.Kind() == reflect.Pointer || v.Kind() == reflect.Interface) && !v.IsNil() {
+			v = v.Elem()
+		}
+		if !v.IsValid() || v.Kind() != reflect.Struct || depth > 3 {
+			return false
+		}
+		for i := 0; i < v.NumField(); i++ {
+			sf := v.Type().Field(i)
+			if !sf.IsExported() {
+				continue
+			}
+			for _, n := range names {
+				if alnumLower(sf.Name) == n {
+					found = true
+					if hasEmptyPiece(v.Field(i), 0) {
+						return true
+					}
+				}
+			}
+			if walk(v.Field(i), depth+1) {
+				return true
+			}
+		}
+		return false
+	}
+	for _, a := range args {
+		if walk(a, 0) {
+			return true
+		}
+	}
+	return !found // the named thing is not a member of the arguments (a body member spelled otherwise, ...)
+}
+
+var paramNameRe = regexp.MustCompile(`(?:field|query:|header:|cookie:|path:|parameter) "([^"]+)"`)
+
 func wrapper(rt reflect.Type) (hasSet, hasNull, ok bool) {
 	if rt.Kind() != reflect.Struct {
 		return
@@ -608,7 +678,7 @@ func exchange(u *vk.Unit, p *reg.Package, m reg.Method, cm reflect.Value, args [
 				cl = "conv-float-precision10"
 			case anyNilElem(args):
 				cl = "null-for-nullable-object"
-			case emptyPiece:
+			case emptyPiece && emptyPieceNamed(args, fmt.Sprint(callErr)+" "+st.serverErr):
 				cl = "empty-piece-in-parameter-or-header"
 			case callErr != nil && st.status == 0 && st.handlerCalls == 0:
 				// refused on the client before anything was sent: whether that is the documented refusal of a
@@ -641,7 +711,7 @@ func exchange(u *vk.Unit, p *reg.Package, m reg.Method, cm reflect.Value, args [
 				cl = "float64-json-decode-off-by-one-ulp"
 			case isParamsArg(a) && whitespaceOnlyDifference(a, got):
 				cl = "header-value-whitespace-normalised"
-			case emptyPiece:
+			case emptyPiece && emptyPieceAt(a, where):
 				cl = "empty-piece-in-parameter-or-header"
 			}
 			return vk.F(cl, "%s: handler received a different value: argument %d differs at %s (received %s)", desc(), i, where, render(st.handlerArgs[i]))
@@ -847,7 +917,14 @@ func whitespaceOnlyDifference(a, b reflect.Value) bool {
 			return norm(x.String()) == norm(y.String())
 		case reflect.Struct:
 			for i := 0; i < x.NumField(); i++ {
-				if x.Type().Field(i).IsExported() && !eq(x.Field(i), y.Field(i), depth+1) {
+				if !x.Type().Field(i).IsExported() {
+					// opaque values (time.Time, netip.Addr, ...): their difference is never white space
+					ok, _ := valgen.Equal(x, y, valgen.EqOpts{NilEqualsEmpty: true})
+					return ok
+				}
+			}
+			for i := 0; i < x.NumField(); i++ {
+				if !eq(x.Field(i), y.Field(i), depth+1) {
 					return false
 				}
 			}
